@@ -62,11 +62,12 @@ def configs(tier):
     out.append(dict(group="swap"))
     out.append(dict(group="orch"))
     out.append(dict(group="class-wiring", cls="denovo"))  # DenovoMCMC.fit/_mcmc -> _homozygosity_probabilities / _denovo_assembler
+    out.append(dict(group="cli-attrs", prog="assemble"))  # argv -> program attributes (inbreeding, temperatures, step probabilities, thresholds, seed)
     return out
 
 
 def weight(c):
-    if c["group"] in ("swap", "orch", "class-wiring"):
+    if c["group"] in ("swap", "orch", "class-wiring", "cli-attrs"):
         return 1
     return c["P"] ** 3 * len(c["nal"]) * (3 if c["group"] != "base" else 1) * (2 if c["inbred"] else 1)
 
@@ -187,11 +188,11 @@ def _sumterms(ts):
 
 
 def run_config(c, col):
-    if c.get("group") in ("class-wiring", "loop-wiring"):
+    if c.get("group") in ("class-wiring", "loop-wiring", "cli-attrs"):
         from checks import wiring
 
         E.use_summaries(True)
-        return (wiring.run_class if c["group"] == "class-wiring" else wiring.run_loop)(c, col)
+        return {"class-wiring": wiring.run_class, "loop-wiring": wiring.run_loop, "cli-attrs": wiring.run_cli_attrs}[c["group"]](c, col)
     if c["group"] == "swap":
         return _run_swap(c, col)
     if c["group"] == "orch":
@@ -695,10 +696,10 @@ def _real_pi(G, nal, F, T, Lmap):
 def replay(v):
     import math
 
-    if v["config"].get("group") in ("class-wiring", "loop-wiring"):
+    if v["config"].get("group") in ("class-wiring", "loop-wiring", "cli-attrs"):
         from checks import wiring
 
-        return wiring.replay_real(v, wiring.run_class if v["config"]["group"] == "class-wiring" else wiring.run_loop)
+        return wiring.replay_real(v, {"class-wiring": wiring.run_class, "loop-wiring": wiring.run_loop, "cli-attrs": wiring.run_cli_attrs}[v["config"]["group"]])
     c = v["config"]
     m = v.get("model") or {}
     if c["group"] in ("swap", "orch"):
